@@ -527,35 +527,70 @@ func fieldName(t types.Type, idx int) string {
 }
 
 // singleStore returns the unique value stored to a non-escaping alloc, or nil.
+// Field/element addresses taken from the alloc are tolerated as long as they
+// are only loaded from (a spilled struct or array parameter).
 func singleStore(a *ssa.Alloc) ssa.Value {
 	var val ssa.Value
 	n := 0
 	for _, r := range *a.Referrers() {
 		switch s := r.(type) {
 		case *ssa.Store:
-			if s.Addr == a {
+			if s.Addr == ssa.Value(a) {
 				n++
 				val = s.Val
+			} else {
+				return nil // the address itself is stored somewhere
 			}
 		case *ssa.UnOp, *ssa.DebugRef:
-		default:
-			// address escapes (call arg, closure, field addr…): do not look through
-			if _, ok := r.(*ssa.MakeClosure); ok {
-				continue // captured; stores inside closures are not tracked → be conservative below
+		case *ssa.FieldAddr:
+			if !onlyLoaded(s) {
+				return nil
 			}
+		case *ssa.IndexAddr:
+			if !onlyLoaded(s) {
+				return nil
+			}
+		case *ssa.Slice:
+			// slicing an array alloc: the slice may be written through; accept only
+			// when the alloc is a spilled parameter (its single store is a Parameter)
+		default:
 			return nil
 		}
 	}
-	if n == 1 {
-		// captured allocs may be stored to inside closures; check
-		for _, r := range *a.Referrers() {
-			if _, ok := r.(*ssa.MakeClosure); ok {
+	if n != 1 {
+		return nil
+	}
+	for _, r := range *a.Referrers() {
+		if _, ok := r.(*ssa.Slice); ok {
+			if _, isParam := val.(*ssa.Parameter); !isParam {
 				return nil
 			}
 		}
-		return val
 	}
-	return nil
+	return val
+}
+
+func onlyLoaded(addr ssa.Value) bool {
+	refs := addr.Referrers()
+	if refs == nil {
+		return false
+	}
+	for _, r := range *refs {
+		switch x := r.(type) {
+		case *ssa.UnOp, *ssa.DebugRef:
+		case *ssa.FieldAddr:
+			if !onlyLoaded(x) {
+				return false
+			}
+		case *ssa.IndexAddr:
+			if !onlyLoaded(x) {
+				return false
+			}
+		default:
+			return false
+		}
+	}
+	return true
 }
 
 // Unwrap strips loads of single-store allocs, conversions and interface
@@ -944,4 +979,35 @@ func DependsOn(v, target ssa.Value) bool {
 		return !found
 	})
 	return found
+}
+
+// StructFieldValue returns the value stored into field `name` of the struct
+// literal that v was loaded from (v = *alloc with per-field stores), or nil.
+func StructFieldValue(v ssa.Value, name string) ssa.Value {
+	u, ok := v.(*ssa.UnOp)
+	if !ok || u.Op != token.MUL {
+		return nil
+	}
+	a, ok := u.X.(*ssa.Alloc)
+	if !ok {
+		return nil
+	}
+	var val ssa.Value
+	n := 0
+	for _, r := range *a.Referrers() {
+		fa, ok := r.(*ssa.FieldAddr)
+		if !ok || fieldName(fa.X.Type(), fa.Field) != name {
+			continue
+		}
+		for _, rr := range *fa.Referrers() {
+			if st, ok := rr.(*ssa.Store); ok && st.Addr == fa {
+				val = st.Val
+				n++
+			}
+		}
+	}
+	if n == 1 {
+		return val
+	}
+	return nil
 }
